@@ -2,6 +2,7 @@ package c12
 
 import (
 	"fmt"
+	"math"
 	"runtime"
 	"sync"
 	"testing"
@@ -312,5 +313,79 @@ func TestRegressFlushDuringAdmission(t *testing.T) {
 			return
 		}
 		t.Errorf("v0, Flush while %d peers submit, %d rounds: %v", peers, rounds, bad)
+	}
+}
+
+type gasApp struct {
+	abci.BaseApplication
+	gas int64
+}
+
+func (a gasApp) CheckTx(abci.RequestCheckTx) abci.ResponseCheckTx {
+	return abci.ResponseCheckTx{GasWanted: a.gas}
+}
+
+// TestRegressReapGasSumOverflow: the block gas limit is above MaxInt64/2 (MaxInt64 is used as "practically
+// unlimited") and three pooled txs want 2^62+1 gas each: only one of them fits, ReapMaxBytesMaxGas must not return
+// more (the running sum of two already exceeds the limit - and the range of int64).
+func TestRegressReapGasSumOverflow(t *testing.T) {
+	for _, v1 := range []bool{false, true} {
+		s, err := newSUT(regressConf(v1, 100), gasApp{gas: 1<<62 + 1}, nil, mempool.PostCheckMaxGas(math.MaxInt64))
+		if err != nil {
+			t.Fatalf("VERIF-INFRA: %v", err)
+		}
+		for _, tx := range []string{"a", "b", "c"} {
+			if err := s.mp.CheckTx([]byte(tx), nil, mempool.TxInfo{}); err != nil {
+				t.Fatal(err)
+			}
+		}
+		got := len(s.mp.ReapMaxBytesMaxGas(-1, math.MaxInt64))
+		lib.Case("TestRegressReapGasSumOverflow", lib.FP(v1), true, fmt.Sprintf("v1=%v", v1))
+		s.stop()
+		if got == 1 {
+			continue
+		}
+		if lib.IsKnown(idGasWrap) && got == 3 {
+			lib.ObservedKnown(idGasWrap)
+			lib.ExcludedByKnown(idGasWrap)
+			continue
+		}
+		t.Errorf("v1=%v: ReapMaxBytesMaxGas(-1, MaxInt64) over three txs wanting 2^62+1 gas each returned %d txs, want 1 (total gas above the limit)", v1, got)
+	}
+}
+
+// TestRegressRepeatedTxInBlockStaysRemembered: a block holds the same tx twice, DeliverTx succeeds for the first
+// occurrence and fails for the replay. The tx was committed: it must be gone from the pool and a CheckTx of it must
+// be refused while the cache (plenty of room) remembers it.
+func TestRegressRepeatedTxInBlockStaysRemembered(t *testing.T) {
+	for _, v1 := range []bool{false, true} {
+		s, err := newSUT(regressConf(v1, 100), acceptAll{}, nil, nil)
+		if err != nil {
+			t.Fatalf("VERIF-INFRA: %v", err)
+		}
+		tx := types.Tx("replayed")
+		if err := s.mp.CheckTx(tx, nil, mempool.TxInfo{}); err != nil {
+			t.Fatal(err)
+		}
+		s.mp.Lock()
+		_ = s.mp.FlushAppConn()
+		err = s.mp.Update(1, types.Txs{tx, tx}, []*abci.ResponseDeliverTx{{Code: 0}, {Code: 1}}, nil, nil)
+		s.mp.Unlock()
+		if err != nil {
+			t.Fatal(err)
+		}
+		again := s.mp.CheckTx(tx, nil, mempool.TxInfo{SenderID: 2})
+		size := s.mp.Size()
+		lib.Case("TestRegressRepeatedTxInBlockStaysRemembered", lib.FP(v1), true, fmt.Sprintf("v1=%v", v1))
+		s.stop()
+		if again != nil && size == 0 {
+			continue
+		}
+		if lib.IsKnown(idRepeat) && again == nil && size == 1 {
+			lib.ObservedKnown(idRepeat)
+			lib.ExcludedByKnown(idRepeat)
+			continue
+		}
+		t.Errorf("v1=%v: block [tx, tx] with DeliverTx codes [0, 1]; afterwards CheckTx(tx) returned %v and the pool holds %d txs, want a refusal and an empty pool", v1, again, size)
 	}
 }
